@@ -15,6 +15,7 @@ import (
 	tcpip "github.com/brewlin/net-protocol/protocol"
 	"github.com/brewlin/net-protocol/protocol/network/ipv4"
 	"github.com/brewlin/net-protocol/protocol/network/ipv6"
+	"github.com/brewlin/net-protocol/stack"
 	"verifh/fw"
 	"verifh/rawpeer"
 	"verifh/rfc"
@@ -34,6 +35,7 @@ type req struct {
 	Dst    string `json:"dst"` // own, own2, foreign, unassigned
 	Frags  int    `json:"fragments"`
 	View   int    `json:"view_size"`
+	Pad    int    `json:"link_padding"` // bytes the link appended behind the IP packet (Ethernet minimum frame size and the like)
 }
 
 type host struct {
@@ -46,8 +48,8 @@ type host struct {
 var own2v4 = tcpip.Address("\x0a\x00\x00\x07")
 var own2v6 = tcpip.Address("\xfd\x00\x00\x00\x00\x00\x00\x00\x00\x00\x00\x00\x00\x00\x00\x07")
 
-func newHost() *host {
-	h, err := wire.NewHost(wire.HostCfg{Name: "E", MTU: 1500, V4: []tcpip.Address{wire.AddrA4, own2v4}, V6: []tcpip.Address{wire.AddrA6, own2v6}})
+func newHost(caps stack.LinkEndpointCapabilities) *host {
+	h, err := wire.NewHost(wire.HostCfg{Name: "E", MTU: 1500, Caps: caps, V4: []tcpip.Address{wire.AddrA4, own2v4}, V6: []tcpip.Address{wire.AddrA6, own2v6}})
 	if err != nil {
 		run.Broken("harness: " + err.Error())
 		return nil
@@ -107,10 +109,16 @@ func (x *host) send(q req, r *fw.Rand) {
 	m := rfc.ICMP{Code: q.Code, Rest: [4]byte{byte(q.ID >> 8), byte(q.ID), byte(q.Seq >> 8), byte(q.Seq)}, Payload: pl}
 	x.h.L.ViewSize = q.View
 	defer func() { x.h.L.ViewSize = 0 }()
+	pad := func(b []byte) []byte {
+		for i := 0; i < q.Pad; i++ {
+			b = append(b, byte(0xa5+i))
+		}
+		return b
+	}
 	if q.V6 {
 		m.Type = 128
 		ip := rfc.IPv6{Next: rfc.ProtoICMPv6, Hop: 64, Src: src6, Dst: d6, Payload: m.BytesV6(src6, d6, true)}
-		x.h.L.Inject(ipv6.ProtocolNumber, ip.Bytes(true), "")
+		x.h.L.Inject(ipv6.ProtocolNumber, pad(ip.Bytes(true)), "")
 		return
 	}
 	m.Type = 8
@@ -120,7 +128,7 @@ func (x *host) send(q req, r *fw.Rand) {
 	}
 	if q.Frags <= 1 || len(whole) < 16 {
 		ip := rfc.IPv4{TTL: 64, Proto: rfc.ProtoICMP, ID: q.Seq, Src: src4, Dst: d4, Payload: whole}
-		x.h.L.Inject(ipv4.ProtocolNumber, ip.Bytes(true), "")
+		x.h.L.Inject(ipv4.ProtocolNumber, pad(ip.Bytes(true)), "")
 		return
 	}
 	blocks := (len(whole) + 7) / 8
@@ -150,7 +158,7 @@ func (x *host) send(q req, r *fw.Rand) {
 		st = e
 	}
 	for _, i := range r.Perm(len(frs)) {
-		x.h.L.Inject(ipv4.ProtocolNumber, frs[i], "")
+		x.h.L.Inject(ipv4.ProtocolNumber, pad(frs[i]), "")
 	}
 }
 
@@ -285,7 +293,15 @@ func child(t *testing.T) {
 	var lo, hi int
 	fmt.Sscan(os.Getenv("VERIF_RANGE"), &lo, &hi)
 	vt.Bubble(t, func() {
-		x := newHost()
+		// every third process runs on a link whose hardware fills in TCP and UDP checksums (the
+		// transports then leave theirs out); ICMP is not covered by such offload: echo replies
+		// must carry their checksum all the same
+		var caps stack.LinkEndpointCapabilities
+		if os.Getenv("VERIF_OFFLOAD") == "1" {
+			caps = stack.CapabilityChecksumOffload
+			run.Count("processes_on_a_checksum_offload_link", 1)
+		}
+		x := newHost(caps)
 		if x == nil {
 			os.Exit(run.Finish("", nil))
 		}
@@ -324,6 +340,9 @@ func child(t *testing.T) {
 					} else {
 						q.BadSum = true
 					}
+				}
+				if r.Chance(1, 6) {
+					q.Pad = []int{1, 2, 1 + r.Intn(20), 1 + r.Intn(20), 18, 46, 1 + r.Intn(200)}[r.Intn(7)]
 				}
 				if r.Chance(1, 12) && q.Frags == 0 {
 					q.View = []int{1, 1, 129, 255}[r.Intn(4)] // 1 = the fd-based link's buffer layout; odd sizes are recorded only
@@ -457,7 +476,7 @@ func TestC13(t *testing.T) {
 		go func() {
 			defer wg.Done()
 			tag := fmt.Sprintf("vt%d", c)
-			res := run.RunChild(fw.ChildSpec{Bin: os.Getenv("VERIF_BIN_VT"), Test: "^TestC13$", Tag: tag, Env: []string{fmt.Sprintf("VERIF_RANGE=%d %d", n*c/nchild, n*(c+1)/nchild)}, Timeout: time.Duration(fw.N(10, 90)) * time.Minute})
+			res := run.RunChild(fw.ChildSpec{Bin: os.Getenv("VERIF_BIN_VT"), Test: "^TestC13$", Tag: tag, Env: []string{fmt.Sprintf("VERIF_RANGE=%d %d", n*c/nchild, n*(c+1)/nchild), fmt.Sprintf("VERIF_OFFLOAD=%d", c%3)}, Timeout: time.Duration(fw.N(10, 90)) * time.Minute})
 			if !res.Done {
 				run.ChildCrashed(res, "C13", tag)
 			}
